@@ -58,7 +58,7 @@ func c17Objects() []metav1.Object {
 	}
 	for _, own := range [][2]string{{"a", "x"}, {"b", "y"}, {"c", "z"}} {
 		for _, l := range few[:2] {
-			for _, k := range []string{"Pod", "Service", "Node"} {
+			for _, k := range []string{"Pod", "Service", "Node", "pod"} { // "pod": kinds are compared as written
 				for _, ns := range nss {
 					for _, n := range names {
 						out = append(out, mkEvent(own[0], own[1], l, k, ns, n))
